@@ -277,6 +277,54 @@ fn run_c16(tier: &str) -> i32 {
     rep.finish()
 }
 
+/// Run `sockets <sub> --tier <tier>` of the main build and add what it reports as phase `phase` (the
+/// counterpart of zcheck's `common::child_phase_bin`): the child's violations become violations of
+/// this run and carry their complete replay records.  `Err(2)` on a machinery problem.
+fn child_phase(rep: &mut Report, sub: &str, tier: &str, phase: &str) -> Result<(), i32> {
+    let exe = xplore::report::build_dir("main").join("release").join("sockets");
+    let out = std::process::Command::new(&exe).args([sub, "--tier", tier]).output().map_err(|e| {
+        eprintln!("MACHINERY: cannot run {}: {e}", exe.display());
+        2
+    })?;
+    let txt = String::from_utf8_lossy(&out.stdout).to_string();
+    let v: Value = match (out.status.success(), txt.lines().last().and_then(|l| serde_json::from_str(l).ok())) {
+        (true, Some(v)) => v,
+        _ => {
+            eprintln!("MACHINERY: {} {sub} ended with {:?}: {}", exe.display(), out.status, String::from_utf8_lossy(&out.stderr).lines().last().unwrap_or(""));
+            return Err(2);
+        }
+    };
+    if v["errors"].as_array().map_or(true, |a| !a.is_empty()) || v["caps"].as_array().map_or(true, |a| !a.is_empty()) {
+        eprintln!("MACHINERY: child {sub}: errors {} caps {}", v["errors"], v["caps"]);
+        return Err(2);
+    }
+    let viol: Vec<Value> = v["violations"].as_array().cloned().unwrap_or_default();
+    let goals: Vec<(&'static str, u64)> = v["goals"].as_object().map(|m| m.iter().map(|(k, c)| (&*Box::leak(k.clone().into_boxed_str()), c.as_u64().unwrap_or(0))).collect()).unwrap_or_default();
+    let (evals, nout, trans) = (v["evals"].as_u64().unwrap_or(0), v["outcomes"].as_u64().unwrap_or(0), v["transitions"].as_u64().unwrap_or(0));
+    let n = evals.max(viol.len() as u64).max(1);
+    let sub = sub.to_string();
+    rep.add(sweep(phase, n, &Config { threads: 1, ..Default::default() }, |i, s| {
+        if i == 0 {
+            for (g, c) in &goals {
+                for _ in 0..(*c).min(3) {
+                    s.goal(g);
+                }
+            }
+            s.steps(trans);
+        }
+        match viol.get(i as usize) {
+            Some(x) => s.fail(x["class"].as_str().unwrap_or("child:violation"), x["detail"].as_str().unwrap_or(""), serde_json::json!({"child": sub, "bin": "sockets", "flavor": "main", "index": x["index"], "case": x["case"], "child_replay": x["replay"]})),
+            None => {
+                if i < 4 {
+                    s.sample(|| serde_json::json!({"phase_run_in_child_process": sub, "build": "main", "case_number": i, "result": "as required"}));
+                }
+                s.pass(if i < nout { i } else { 0 })
+            }
+        }
+    }));
+    Ok(())
+}
+
 fn run_c12(tier: &str) -> i32 {
     let mut rep = Report::new("C12", tier);
     rep.rule = format!("generated corpus of {} proxy methods in {} traits (every parameter list of length 0..2 over 11 parameter types, every type also in 3rd and 4th position; names with 1..4 words and digits; method and parameter renames; elided and explicit lifetimes; a generic parameter; plain / more / oneway; unit, owned and borrowed outputs), compiled against /repo's proxy macro; per method every combination of boundary argument values x call forms {{plain, chain_ start, chain extension}} x scripted replies {{success, declared error, undeclared error, EOF, 3 streamed items}}; the expected frame is built from the declaration by the generator. Distinct = distinct (method, check) pairs", proxy_support::corpus::N_METHODS, proxy_support::corpus::N_METHODS.div_ceil(12));
@@ -288,6 +336,13 @@ fn run_c12(tier: &str) -> i32 {
         s.goal("proxy-method-exercised");
         (proxy_support::corpus::CASES[i as usize])(s)
     }));
+    // the calls a generated method sends, over the shipped transports (child process)
+    rep.rule.push_str("; plus (child process `sockets c12-child`) a generated oneway method over real socket pairs with the zlink-tokio / zlink-smol transports and a raw std reader at the other end: sequences of 1..2 calls with an argument of 300 B .. 150 KB (characters that need escaping), and sequences in which one call is abandoned at its 1st / 2nd / 4th pending poll (a timeout, the losing arm of a select) and further calls follow; what the reader takes off must be exactly the calls the rule describes, each followed by one NUL (bytes of an abandoned call that were not yet written go out with the next one)");
+    rep.require_goal("proxy-call-abandoned-then-another-proxy-call");
+    rep.require_goal("proxy-calls-of-several-socket-writes");
+    if let Err(code) = child_phase(&mut rep, "c12-child", tier, "generated-proxy-method-over-real-sockets/tokio+smol(child)") {
+        return code;
+    }
     rep.finish()
 }
 
@@ -299,6 +354,40 @@ fn replay(path: &str) -> i32 {
             return 2;
         }
     };
+    if v["case"]["child_replay"].is_object() {
+        // a counterexample of the child process: hand its record to that binary's own --replay
+        let dir = xplore::report::build_dir("main");
+        let file = dir.join(format!("child-replay-{:08x}.json", xplore::hash_of(&v["case"]["child_replay"].to_string()) & 0xffff_ffff));
+        if let Err(e) = std::fs::write(&file, v["case"]["child_replay"].to_string()) {
+            eprintln!("MACHINERY: cannot write {}: {e}", file.display());
+            return 2;
+        }
+        let exe = dir.join("release").join("sockets");
+        return match std::process::Command::new(&exe).arg("--replay").arg(&file).output() {
+            Ok(o) => {
+                let text = String::from_utf8_lossy(&o.stdout).to_string();
+                match o.status.code() {
+                    Some(0) => {
+                        println!("replay of {path}: the property HOLDS on this case now");
+                        0
+                    }
+                    Some(1) => {
+                        let find = |key: &str| text.lines().find_map(|l| l.strip_prefix(key)).unwrap_or("").to_string();
+                        println!("VIOLATION property={} replay={path}\n  class: {}\n  detail: {}", v["property"].as_str().unwrap_or("C12"), find("  class: "), find("  detail: "));
+                        1
+                    }
+                    other => {
+                        eprintln!("MACHINERY: {} --replay ended with {other:?}", exe.display());
+                        2
+                    }
+                }
+            }
+            Err(e) => {
+                eprintln!("MACHINERY: cannot run {}: {e}", exe.display());
+                2
+            }
+        };
+    }
     let prop = v["property"].as_str().unwrap_or("");
     let idx = v["index"].as_u64().unwrap_or(0);
     let class = v["class"].as_str().unwrap_or("");
